@@ -27,6 +27,7 @@ ASSUMPTIONS = [
     "the Bath reference uses the utility duties and temperatures reported on the target (C03/C04 decide whether those are right)",
     "area tolerance 1e-4 relative; stream duties are >= 50 kW because the routine rounds its curves to 6 dp internally (tiny duties lose relative precision by design)",
     "cases whose utility duties do not close (known finding C02-F1) are excluded by its input-only predicate",
+    "an eighth of the problems carry plant-scale duties (sensible streams x 10, up to 1 GW); latent streams keep <= 100 MW because the library represents them as 0.01 K spans and rounds temperatures to 6 dp, which at a CP of 1e8 kW/K is an enthalpy error of tens of kW - a representation limit, not one of the listed clauses",
 ]
 
 
@@ -210,6 +211,10 @@ def area_problem(draw, tier):
     for s in ss:
         if s["heat_flow"] < 50.0:
             s["heat_flow"] = round(s["heat_flow"] * 100.0 + 50.0, 3)  # the routine rounds enthalpies to 6 dp: keep duties well above that
+    if draw(st.integers(0, 7)) == 0:
+        for s in ss:  # plant-scale duties (up to 1 GW per stream): sums of that size carry float rounding of about 1e-6
+            if abs(s["t_supply"] - s["t_target"]) >= 1.0:  # not the latent ones: 1 GW over 0.01 K is a CP of 1e8 kW/K (see ASSUMPTIONS)
+                s["heat_flow"] = round(s["heat_flow"] * 10.0, 3)
     us = []
     if draw(st.booleans()):
         top = max(max(s["t_supply"], s["t_target"]) for s in ss)
